@@ -223,6 +223,12 @@ func deepCopy(src *lazyNode, options *ApplyOptions) (*lazyNode, int, error) {
 	if err != nil {
 		return nil, 0, err
 	}
+	// The copy is kept as text and parsed again, without further checks, when
+	// a later operation descends into it. A value put together by earlier
+	// operations can be nested deeper than the decoder accepts.
+	if !json.Valid(a) {
+		return nil, 0, fmt.Errorf("copied value cannot be parsed again: %w", ErrInvalid)
+	}
 	sz := len(a)
 	return newLazyNode(newRawMessage(a)), sz, nil
 }
